@@ -287,10 +287,10 @@ func c20RunWith(r *run.Runner, c c20Case, faultAt int, faultName string) (nops i
 		if !hang {
 			answeredAt = lat
 		}
+		// the background request is bounded by the configured timeout only: it
+		// outlives the caller's use of the stale response and the caller's context
 		limit := T
-		if callerEnd >= 0 && callerEnd < limit {
-			limit = callerEnd
-		}
+		_ = callerEnd
 		took := bc.Exit.Sub(ex.TReturn)
 		switch {
 		case answeredAt >= 0 && answeredAt < limit:
@@ -301,7 +301,7 @@ func c20RunWith(r *run.Runner, c c20Case, faultAt int, faultName string) (nops i
 			// tie between the reply and the cancellation: either is fine
 		default:
 			if took != limit {
-				r.Violation("cancel-instant", sig, fmt.Sprintf("background request was released after %v, expected cancellation at %v (timeout %v, caller context ends at %v); %s", took, limit, T, callerEnd, ex.Summary()), obs)
+				r.Violation("cancel-instant", sig, fmt.Sprintf("background request was released after %v, expected cancellation when the timeout %v elapsed (the caller's context ended at %v: it must not cut the revalidation short); %s", took, T, callerEnd, ex.Summary()), obs)
 			} else {
 				r.Count("cancellations_at_exact_instant", 1)
 			}
